@@ -148,7 +148,7 @@ def main(tier, only=None):
                     s = (groups * g + d) * (bs // 1024)
                     if s > 60: jobs.append(('bs/%s/b%d/%dk' % (name, bs, s), o + ['-b', str(bs), '-g', str(g), '-N', '64'], s, bs, False))
     # (3) one option at a time, on three sizes
-    devs = [['-I', '128'], ['-I', '256'], ['-I', '1024'], ['-i', '1024'], ['-i', '8192'], ['-i', '65536'], ['-N', '16'], ['-N', '5000'], ['-m', '0'], ['-m', '50'], ['-G', '1'], ['-G', '2'], ['-G', '16'], ['-G', '256'],
+    devs = [['-I', '128'], ['-I', '256'], ['-I', '1024'], ['-i', '1024'], ['-i', '8192'], ['-i', '65536'], ['-N', '16'], ['-N', '5000'], ['-N', '20000'], ['-N', '70000'], ['-m', '0'], ['-m', '50'], ['-G', '1'], ['-G', '2'], ['-G', '16'], ['-G', '256'],
             ['-E', 'stride=4,stripe_width=8'], ['-E', 'stride=13'], ['-E', 'resize=20000'], ['-E', 'resize=200000'], ['-E', 'packed_meta_blocks=1'], ['-E', 'num_backup_sb=0'], ['-E', 'num_backup_sb=1'],
             ['-E', 'root_owner=1000:1000'], ['-E', 'lazy_itable_init=0'], ['-E', 'lazy_itable_init=1,lazy_journal_init=1'], ['-E', 'nodiscard'], ['-E', 'offset=4096'], ['-E', 'root_perms=0700'],
             ['-d', root], ['-T', 'small'], ['-T', 'news'], ['-T', 'largefile'], ['-L', 'label16charslong'], ['-M', '/mnt/x'], ['-e', 'remount-ro'], ['-c' if False else '-v'], ['-S'] if False else ['-K'],
